@@ -321,7 +321,7 @@ int __wrap_fclose(FILE *fp) {
 }
 
 // sanitizer configuration: identical in every run (DESIGN.md 2.1, SimAlloc)
-extern "C" __attribute__((used)) const char *__asan_default_options() { return "exitcode=77:detect_leaks=0:allocator_may_return_null=1:max_allocation_size_mb=1024:detect_stack_use_after_return=0:symbolize=1"; }
+extern "C" __attribute__((used)) const char *__asan_default_options() { return "exitcode=77:detect_leaks=0:allocator_may_return_null=1:max_allocation_size_mb=1024:detect_stack_use_after_return=0:symbolize=1:handle_abort=1"; }
 #ifndef GRSIM_TSAN_BUILD   // the TSan runtime also parses UBSan defaults into the shared common flags (exitcode!)
 extern "C" __attribute__((used)) const char *__ubsan_default_options() { return "exitcode=77:print_stacktrace=1:halt_on_error=1"; }
 #endif
